@@ -399,6 +399,10 @@ pub(super) fn translate_literal(l: Literal, ctx: &Context) -> Result<sql_ast::Ex
             sql_ast::Expr::Value(Value::SingleQuotedString(s.replace('\'', "''")).into())
         }
         Literal::Boolean(b) => sql_ast::Expr::Value(Value::Boolean(b).into()),
+        Literal::Float(f) if f.is_infinite() => {
+            // `inf` is not a number in SQL (it would be read as a column name)
+            return Err(Error::new_simple("float literal is out of range"));
+        }
         Literal::Float(f) if f.is_sign_negative() && !f.is_nan() => negative_number(format!("{:?}", -f)),
         Literal::Float(f) => sql_ast::Expr::Value(Value::Number(format!("{f:?}"), false).into()),
         Literal::Integer(i) if i < 0 => negative_number(format!("{}", i.unsigned_abs())),
